@@ -75,13 +75,58 @@ theorem C04_invariant (c : Core) (m : Machine) (rapid : Bool) (req : Pt)
   · simp only [if_true, V3.sub]
     rw [word_rel, word_rel, word_rel]
 
-/-- **Any call history that leaves the mapping alone** (moves, rapids, distance-mode switches, and the
-    transformer calls that cannot change the current matrix: `set_pivot`, `save_state`, `delete_state`,
-    entering `current_transform()`): once machine and builder agree, interpreting the whole output keeps
-    the machine at `transform(tracked position)` and in the builder's distance mode.  Hence also for
-    interpolated paths, which are sequences of `move` calls. -/
+/-- **Absolute-bypass moves** (`move_absolute` / `rapid_absolute`) are documented to *bypass* the
+    transform: they write the raw request (bracketed by `G90` … `G91` when the builder is in relative
+    mode), track the raw target and leave transform and distance mode alone. -/
+theorem C04_bypass_word (c : Core) (rapid : Bool) (req : Pt) :
+    (c.goAbs rapid req).2 =
+      (if c.rel then [Stmt.mode false, Stmt.go rapid req, Stmt.mode true] else [Stmt.go rapid req]) ∧
+    (c.goAbs rapid req).1.axes = Pt.replace c.axes req ∧
+    (c.goAbs rapid req).1.tr = c.tr ∧ (c.goAbs rapid req).1.rel = c.rel := ⟨rfl, rfl, rfl, rfl⟩
+
+/-- the machine that reads a bypass move ends on its old position with the requested coordinates
+    replaced, back in the builder's distance mode -/
+theorem C04_bypass_machine (c : Core) (m : Machine) (rapid : Bool) (req : Pt) (hrel : m.rel = c.rel) :
+    (c.goAbs rapid req).2.foldl Machine.exec m = ⟨m.pos.replace req, c.rel⟩ := by
+  cases m with
+  | mk pos rel =>
+    simp only at hrel
+    subst hrel
+    cases hr : c.rel <;> simp [Core.goAbs, hr, Machine.exec, V3.replace]
+
+/-- `set_axis` (`G92`): the machine's coordinates are renamed to the raw request -/
+theorem C04_setaxis_machine (c : Core) (m : Machine) (req : Pt) :
+    (c.setAxis req).2.foldl Machine.exec m = ⟨m.pos.replace req, m.rel⟩ ∧
+    (c.setAxis req).1.axes = Pt.replace c.axes req ∧ (c.setAxis req).1.tr = c.tr ∧ (c.setAxis req).1.rel = c.rel := by
+  refine ⟨?_, rfl, rfl, rfl⟩
+  simp [Core.setAxis, Machine.exec, V3.replace]
+
+theorem C04_bypass_agree_iff (c : Core) (m : Machine) (rapid : Bool) (req : Pt)
+    (hpos : m.pos = c.A.apply c.axes.resolve) (hrel : m.rel = c.rel) :
+    (c.goAbs rapid req).2.foldl Machine.exec m =
+        ⟨(c.goAbs rapid req).1.A.apply (c.goAbs rapid req).1.axes.resolve, (c.goAbs rapid req).1.rel⟩
+      ↔ c.resyncs req := by
+  rw [C04_bypass_machine c m rapid req hrel, hpos]
+  simp only [Core.goAbs, Core.A, Pt.resolve_replace, Core.resyncs, Machine.mk.injEq, and_true]
+  exact eq_comm
+
+theorem C04_setaxis_agree_iff (c : Core) (m : Machine) (req : Pt)
+    (hpos : m.pos = c.A.apply c.axes.resolve) (hrel : m.rel = c.rel) :
+    (c.setAxis req).2.foldl Machine.exec m =
+        ⟨(c.setAxis req).1.A.apply (c.setAxis req).1.axes.resolve, (c.setAxis req).1.rel⟩
+      ↔ c.resyncs req := by
+  rw [(C04_setaxis_machine c m req).1, hpos, hrel]
+  simp only [Core.setAxis, Core.A, Pt.resolve_replace, Core.resyncs, Machine.mk.injEq, and_true]
+  exact eq_comm
+
+/-- **Any call history that leaves the mapping alone** — moves, rapids, distance-mode switches, the
+    transformer calls that cannot change the current matrix, and bypass moves / axis resets at points
+    where they `resync`: once machine and builder agree, interpreting the whole output keeps the machine
+    at `transform(tracked position)` and in the builder's distance mode.  Hence also for interpolated
+    paths, which are sequences of `move` calls.  In particular the image of the position a move starts
+    from is always that of the *current* tracked position, however that position was reached. -/
 theorem C04_invariant_run (ops : List Op) : ∀ (c : Core) (m : Machine),
-    (∀ op ∈ ops, op.keepsMap = true) → m.pos = c.A.apply c.axes.resolve → m.rel = c.rel →
+    c.keepsAgreeAll ops → m.pos = c.A.apply c.axes.resolve → m.rel = c.rel →
     (c.run ops).2.foldl Machine.exec m =
       ⟨(c.run ops).1.A.apply (c.run ops).1.axes.resolve, (c.run ops).1.rel⟩
     ∧ (c.run ops).1.A = c.A := by
@@ -92,33 +137,39 @@ theorem C04_invariant_run (ops : List Op) : ∀ (c : Core) (m : Machine),
     cases m; simp_all [Core.run]
   | cons op ops ih =>
     intro c m hk hpos hrel
-    have hop := hk op (by simp)
-    have hA := Core.step_keepsMap c op hop
-    -- the step keeps machine = A·tracked
-    have hstep : ((c.step op).2.1.foldl Machine.exec m).pos = (c.step op).1.A.apply (c.step op).1.axes.resolve
-        ∧ ((c.step op).2.1.foldl Machine.exec m).rel = (c.step op).1.rel := by
+    obtain ⟨hop, hrest⟩ := hk
+    -- the step keeps machine = A·tracked and the map
+    have hstep : (c.step op).2.1.foldl Machine.exec m =
+          ⟨(c.step op).1.A.apply (c.step op).1.axes.resolve, (c.step op).1.rel⟩ ∧ (c.step op).1.A = c.A := by
       cases op with
-      | move req =>
-        have := (C04_invariant c m false req hpos hrel).1
-        simp only [Core.step]; rw [this]; exact ⟨rfl, rfl⟩
-      | rapid req =>
-        have := (C04_invariant c m true req hpos hrel).1
-        simp only [Core.step]; rw [this]; exact ⟨rfl, rfl⟩
-      | dist r => exact ⟨hpos, rfl⟩
-      | setPivot p => exact ⟨hpos, hrel⟩
+      | move req => exact ⟨(C04_invariant c m false req hpos hrel).1, rfl⟩
+      | rapid req => exact ⟨(C04_invariant c m true req hpos hrel).1, rfl⟩
+      | moveAbs r req => exact ⟨(C04_bypass_agree_iff c m r req hpos hrel).2 hop, rfl⟩
+      | setAxis req => exact ⟨(C04_setaxis_agree_iff c m req hpos hrel).2 hop, rfl⟩
+      | dist r => cases m; simp_all [Core.step, Machine.exec, Core.A]
+      | setPivot p => cases m; simp_all [Core.step, Core.A, Tr.setPivot, Xf.setPivot]
       | save name =>
-        simp only [Core.step, Tr.saveState, List.foldl]
-        cases Tr.nameKey name <;> exact ⟨hpos, hrel⟩
+        have hA := Core.step_keepsMap c (.save name) rfl
+        refine ⟨?_, hA⟩
+        rw [hA]
+        cases m
+        simp only [Core.step, Tr.saveState, List.foldl] at *
+        cases Tr.nameKey name <;> simp_all
       | delete name =>
-        simp only [Core.step, Tr.deleteState]
-        cases c.tr.named.get name <;> exact ⟨hpos, hrel⟩
-      | enterCurrent => exact ⟨hpos, hrel⟩
+        have hA := Core.step_keepsMap c (.delete name) rfl
+        refine ⟨?_, hA⟩
+        rw [hA]
+        cases m
+        simp only [Core.step, Tr.deleteState] at *
+        cases c.tr.named.get name <;> simp_all [Core.lift]
+      | enterCurrent => cases m; simp_all [Core.step, Core.A]
       | translate | scale | rotate | chain | reflect | mirror | restore | enterNamed | exit =>
-        simp [Op.keepsMap] at hop
-    obtain ⟨i1, i2⟩ := ih (c.step op).1 ((c.step op).2.1.foldl Machine.exec m)
-      (fun o ho => hk o (by simp [ho])) hstep.1 hstep.2
+        simp [Core.keepsAgree, Op.keepsMap] at hop
+    have hm : ((c.step op).2.1.foldl Machine.exec m).pos = (c.step op).1.A.apply (c.step op).1.axes.resolve
+        ∧ ((c.step op).2.1.foldl Machine.exec m).rel = (c.step op).1.rel := by rw [hstep.1]; exact ⟨rfl, rfl⟩
+    obtain ⟨i1, i2⟩ := ih (c.step op).1 ((c.step op).2.1.foldl Machine.exec m) hrest hm.1 hm.2
     simp only [Core.run, List.foldl_append]
-    exact ⟨i1, by rw [i2, hA]⟩
+    exact ⟨i1, by rw [i2, hstep.2]⟩
 
 /-! Non-vacuity.  Rotation by 90° about z followed by a translation by (5,0,0) (as the 4×4 matrix the
     code would hold); tracked position (1,1,0).  A relative request `x=+2` must also write `Y`
@@ -133,3 +184,17 @@ example : ((C04_exC true).run [.move ⟨some 2, none, none⟩, .dist false, .rap
     = [.go false ⟨some 0, some 2, none⟩, .mode false, .go true ⟨some (-2), some 3, some 1⟩] := by decide +kernel
 example : ((C04_exC true).run [.move ⟨some 2, none, none⟩, .dist false, .rapid ⟨none, some 7, some 1⟩]).2.foldl
     Machine.exec ⟨(C04_exC true).A.apply ⟨1, 1, 0⟩, true⟩ = ⟨(C04_exC true).A.apply ⟨3, 7, 1⟩, false⟩ := by decide +kernel
+
+/-! Bypass moves.  Under the rotation by 90° about z (a linear map), `rapid_absolute(0,0,0)` is a fixed
+    point: agreement survives, and the next relative `move(x=1)` is measured from the image of the *new*
+    tracked position (the origin), not from where the previous move ended.  A bypass to (1,0,0) does not
+    resync. -/
+def C04_exR : M4 := ⟨0,-1,0,0, 1,0,0,0, 0,0,1,0, 0,0,0,1⟩
+def C04_exD (rel : Bool) : Core :=
+  ⟨{ Tr.init with cur := { Xf.init with matrix := C04_exR } }, [], ⟨some 5, some 0, some 0⟩, rel⟩
+example : (C04_exD true).resyncs ⟨some 0, some 0, some 0⟩ := by decide +kernel
+example : ¬ (C04_exD true).resyncs ⟨some 1, some 0, some 0⟩ := by decide +kernel
+example : (C04_exD true).keepsAgreeAll [.moveAbs true ⟨some 0, some 0, some 0⟩, .move ⟨some 1, none, none⟩] := by
+  decide +kernel
+example : ((C04_exD true).run [.moveAbs true ⟨some 0, some 0, some 0⟩, .move ⟨some 1, none, none⟩]).2
+    = [.mode false, .go true ⟨some 0, some 0, some 0⟩, .mode true, .go false ⟨some 0, some 1, none⟩] := by decide +kernel
